@@ -2544,24 +2544,46 @@ func genGlobalVarDecl(nodes []*node, sc *scope) (*node, error) {
 }
 
 func getVarDependencies(nod *node, sc *scope) (deps []*node) {
-	nod.Walk(func(n *node) bool {
-		if n.kind != identExpr {
-			return true
-		}
-		// Process ident nodes, and avoid false dependencies.
-		if n.anc.kind == selectorExpr && childPos(n) == 1 {
+	seen := map[*node]bool{}
+	var walk func(root *node, inFunc bool)
+	walk = func(root *node, inFunc bool) {
+		root.Walk(func(n *node) bool {
+			if n.kind != identExpr {
+				return true
+			}
+			// Process ident nodes, and avoid false dependencies.
+			if n.anc.kind == selectorExpr && childPos(n) == 1 {
+				return false
+			}
+			sym := n.sym
+			if !inFunc {
+				var ok bool
+				if sym, _, ok = sc.lookup(n.ident); !ok {
+					return false
+				}
+			}
+			// In a function body, identifiers have been resolved by the cfg pass
+			// according to the local scopes: a symbol is set on references only.
+			if sym == nil {
+				return false
+			}
+			if sym.kind == funcSym && sym.node != nil && sym.node.kind == funcDecl {
+				// A reference to a function is a reference to the variables
+				// its body refers to.
+				if !seen[sym.node] {
+					seen[sym.node] = true
+					walk(sym.node, true)
+				}
+				return false
+			}
+			if sym.kind != varSym || !sym.global || sym.node == nod {
+				return false
+			}
+			deps = append(deps, sym.node)
 			return false
-		}
-		sym, _, ok := sc.lookup(n.ident)
-		if !ok {
-			return false
-		}
-		if sym.kind != varSym || !sym.global || sym.node == nod {
-			return false
-		}
-		deps = append(deps, sym.node)
-		return false
-	}, nil)
+		}, nil)
+	}
+	walk(nod, false)
 	return deps
 }
 
